@@ -106,3 +106,59 @@ mod verif_c01l {
     }
 }
 //@end
+
+//@append src/primitives/common/thick_segment.rs
+#[cfg(kani)]
+#[allow(missing_docs, trivial_casts, trivial_numeric_casts, unused_qualifications, dead_code, unused)]
+mod verif_c02ts {
+    use super::*;
+    use crate::{
+        geometry::Point,
+        primitives::common::{line_join::EdgeCorners, JoinKind, LineSide},
+        verif_probe::{any_point, sp},
+    };
+
+    fn any_join() -> LineJoin {
+        let side = if kani::any() { LineSide::Left } else { LineSide::Right };
+        let kind = match kani::any::<u8>() % 6 {
+            0 => JoinKind::Miter,
+            1 => JoinKind::Bevel { outer_side: side },
+            2 => JoinKind::Degenerate { outer_side: side },
+            3 => JoinKind::Colinear,
+            4 => JoinKind::Start,
+            _ => JoinKind::End,
+        };
+        LineJoin {
+            kind,
+            first_edge_end: EdgeCorners { left: any_point(4096), right: any_point(4096) },
+            second_edge_start: EdgeCorners { left: any_point(4096), right: any_point(4096) },
+        }
+    }
+
+    /// ThickSegment::edges_bounding_box (the per-segment term of the styled bounding box of thick polylines
+    /// and of triangles with Center/Outside strokes): the *tight* box of the four corner points of the
+    /// segment's left and right edge (the start joint's second-edge corners and the end joint's first-edge
+    /// corners), for arbitrary joints; a skeleton segment (left == right) gives the box of its single line.
+    //@harness prop=C02,C08 kind=contract tier=quick class=P fns=src/primitives/common/thick_segment.rs::ThickSegment::edges_bounding_box;src/primitives/common/thick_segment.rs::ThickSegment::edges;src/primitives/common/thick_segment.rs::ThickSegment::is_skeleton
+    #[kani::proof]
+    fn c02_thick_segment_edges_box() {
+        let (sj, ej) = (any_join(), any_join());
+        let s = ThickSegment::new(sj, ej);
+        let r = s.edges_bounding_box();
+        let (a, b, c, d) = (sj.second_edge_start.right, ej.first_edge_end.right, ej.first_edge_end.left, sj.second_edge_start.left);
+        let skeleton = sj.first_edge_end.left == sj.first_edge_end.right;
+        let (x0, x1, y0, y1) = if skeleton {
+            (c.x.min(d.x), c.x.max(d.x), c.y.min(d.y), c.y.max(d.y))
+        } else {
+            (a.x.min(b.x).min(c.x).min(d.x), a.x.max(b.x).max(c.x).max(d.x), a.y.min(b.y).min(c.y).min(d.y), a.y.max(b.y).max(c.y).max(d.y))
+        };
+        assert!(r.top_left == Point::new(x0, y0));
+        assert!(r.size.width as i64 == x1 as i64 - x0 as i64 + 1 && r.size.height as i64 == y1 as i64 - y0 as i64 + 1);
+        if !skeleton {
+            assert!(sp::contains(&r, a) && sp::contains(&r, b) && sp::contains(&r, c) && sp::contains(&r, d));
+        }
+        kani::cover!(!skeleton && d.x > a.x && d.x > b.x && d.x > c.x);
+        kani::cover!(skeleton);
+    }
+}
+//@end
